@@ -162,7 +162,7 @@ class Resources:
     @staticmethod
     def _convert_to_gb(memory: str) -> float:
         units = {"B": 1e-9, "KB": 1e-6, "MB": 1e-3, "GB": 1, "TB": 1e3, "PB": 1e6}
-        match = re.match(r"^(\d+(?:\.\d+)?)([KMGTP]?B)$", memory.upper())
+        match = re.match(r"^(\d+(?:\.\d+)?)([KMGTP]?B)\Z", memory.upper())
         if match:
             value, unit = match.groups()
             return float(value) * units[unit]
@@ -171,7 +171,7 @@ class Resources:
 
     @staticmethod
     def _is_valid_wall_time(time: str) -> bool:
-        pattern = re.compile(r"^(\d+:)?(\d{2}:)?\d{2}:\d{2}$")
+        pattern = re.compile(r"^(\d+:)?(\d{2}:)?\d{2}:\d{2}\Z")
         return bool(pattern.match(time))
 
     @staticmethod
